@@ -266,7 +266,7 @@ def emit_heap_frames(c, I, S, ctx, tagsof):
     seeds = [d for d in ctx.draws if d[0] == "seed"]
     nd = [d for d in ctx.draws if d[0] != "seed"]
     inf = tagsof("frame:rng")
-    inf["tags"] = sorted(set(inf["tags"]) | {"C14", "C12"} | set(c.all_props()))
+    inf["tags"] = sorted(set(inf["tags"]) | {"C14", "C12", "C07"} | set(c.all_props()))
     ctx.oblige(f"{c.qualname}:frame:C14.global-rng-used-only-as-declared",
                z3.BoolVal((allowed_draws or not nd) and (getattr(c, "may_seed", False) or not seeds)), kind="frame", info=inf)
     hr = sorted({f"{getattr(w[1], 'label', None) or w[1]!r}.{w[2]}" for w in ctx.writes if w[0] == "hidden-read"})
@@ -351,7 +351,18 @@ def verify_contract(repo, c, variant, policy=None, path_timeout_ms=2000, max_pat
         for kind_, q in I.call_log:
             stats["calls"].add((kind_, q))
         S.exc = None
-        for label, t in c.ensures(I, S):
+        try:
+            post = list(c.ensures(I, S))
+        except (EngineLimit, PathEnd, PyExc):
+            raise
+        except Exception as e:      # noqa - the clauses could not even be stated about this result: it does not have the
+            # structure the contract specifies (on the unchanged tree every contract's clauses evaluate)
+            inf = tagsof("")
+            inf["tags"] = sorted(set(inf["tags"]) | set(c.all_props()))
+            inf["why"] = f"{type(e).__name__}: {str(e)[:160]}"
+            post = []
+            ctx.oblige(f"{c.qualname}:post:result-has-the-specified-structure", z3.BoolVal(False), kind="post", info=inf)
+        for label, t in post:
             ctx.oblige(f"{c.qualname}:post:{label}", t, kind="post", info=tagsof(label))
         for label, t in c.frame(I, S):
             ctx.oblige(f"{c.qualname}:frame:{label}", t, kind="frame", info=tagsof("frame:" + label))
